@@ -178,6 +178,8 @@ class Ctx:
         with open(path, "w") as f:
             json.dump(replay_obj, f, indent=1, sort_keys=True)
         self.violations.append((what, path))
+        if len(self.violations) > 3:
+            return  # the first few are enough; the rest is counted in the evidence
         print("VIOLATION property=%s replay=%s" % (self.pid, path))
         print("  " + what)
         sys.stdout.flush()
@@ -262,6 +264,7 @@ def parse_tlc(outp, collect_emit=True):
                 continue
             if "@REJECT" in line:
                 res["reject"] = unquote_tla(line.strip())
+                res["violated"] = res["violated"] or "POSTCONDITION"
                 continue
             m = re.match(r"(?:Progress.*: )?([\d,]+) states generated.*?([\d,]+) distinct states found", line)
             if m and not line.startswith("Progress"):
